@@ -247,88 +247,215 @@ func WorkloadExpansion(p *core.Program, r *core.Report, rule string) {
 		return
 	}
 	info := fd.Pkg.TypesInfo
-	// sibling cases
+	sig := fd.Obj.Type().(*types.Signature)
+	obj := func(e ast.Expr) types.Object {
+		if id, ok := ast.Unparen(e).(*ast.Ident); ok {
+			return info.ObjectOf(id)
+		}
+		return nil
+	}
+	// ---- roles of the locals, found by how the generated pods are built (not by what they are called)
+	var podVar, nsVar, nameVar, apiVar, kindVar, templateVar, numVar, replicasVar types.Object
+	okLabels, okPorts := false, false
+	ast.Inspect(fd.Decl.Body, func(n ast.Node) bool {
+		as, ok := n.(*ast.AssignStmt)
+		if !ok || len(as.Lhs) != 1 || len(as.Rhs) != 1 {
+			return true
+		}
+		rhs := ast.Unparen(as.Rhs[0])
+		if ue, isU := rhs.(*ast.UnaryExpr); isU && ue.Op == token.AND {
+			rhs = ast.Unparen(ue.X)
+		}
+		if cl, isCl := rhs.(*ast.CompositeLit); isCl {
+			if nt := core.NamedOf(info.TypeOf(cl)); nt != nil && nt.Obj().Name() == "Pod" && podVar == nil {
+				podVar = obj(as.Lhs[0])
+			}
+		}
+		if c, isC := rhs.(*ast.CallExpr); isC && core.IsBuiltinCall(info, c, "make") && len(c.Args) == 2 {
+			if sl, isSl := info.TypeOf(c).Underlying().(*types.Slice); isSl && core.TypeIs(sl.Elem(), core.PkgK8s, "Pod") {
+				numVar = obj(c.Args[1])
+			}
+		}
+		return true
+	})
+	if podVar != nil {
+		ast.Inspect(fd.Decl.Body, func(n ast.Node) bool {
+			switch x := n.(type) {
+			case *ast.AssignStmt:
+				if len(x.Lhs) != 1 || len(x.Rhs) != 1 {
+					return true
+				}
+				se, ok := ast.Unparen(x.Lhs[0]).(*ast.SelectorExpr)
+				if !ok || obj(se.X) != podVar {
+					return true
+				}
+				switch se.Sel.Name {
+				case "Namespace":
+					nsVar = obj(x.Rhs[0])
+				case "Owner":
+					if cl, isCl := ast.Unparen(x.Rhs[0]).(*ast.CompositeLit); isCl {
+						for _, el := range cl.Elts {
+							if kv, isKV := el.(*ast.KeyValueExpr); isKV {
+								switch core.ExprStr(kv.Key) {
+								case "Name":
+									nameVar = obj(kv.Value)
+								case "Kind":
+									kindVar = obj(kv.Value)
+								case "APIVersion":
+									apiVar = obj(kv.Value)
+								}
+							}
+						}
+					}
+				case "Ports":
+					// pod.Ports = append(pod.Ports, <template>.Spec.Containers[i].Ports...)
+					if c, isC := ast.Unparen(x.Rhs[0]).(*ast.CallExpr); isC && core.IsBuiltinCall(info, c, "append") && len(c.Args) == 2 {
+						if strings.Contains(core.ExprStr(c.Args[1]), ".Spec.Containers[") && strings.HasSuffix(core.ExprStr(c.Args[1]), ".Ports") {
+							if root := core.RootIdent(c.Args[1]); root != nil && (templateVar == nil || info.ObjectOf(root) == templateVar) {
+								templateVar = info.ObjectOf(root)
+								okPorts = true
+							}
+						}
+					}
+				}
+			case *ast.RangeStmt:
+				// for k, v := range <template>.Labels { pod.Labels[k] = v }
+				if se, ok := ast.Unparen(x.X).(*ast.SelectorExpr); ok && se.Sel.Name == "Labels" {
+					writes := false
+					ast.Inspect(x.Body, func(m ast.Node) bool {
+						if as, isAs := m.(*ast.AssignStmt); isAs && len(as.Lhs) == 1 {
+							if ix, isIx := ast.Unparen(as.Lhs[0]).(*ast.IndexExpr); isIx {
+								if se2, isSe := ast.Unparen(ix.X).(*ast.SelectorExpr); isSe && se2.Sel.Name == "Labels" && obj(se2.X) == podVar {
+									writes = true
+								}
+							}
+						}
+						return true
+					})
+					if writes {
+						if root := core.RootIdent(se); root != nil && (templateVar == nil || info.ObjectOf(root) == templateVar) {
+							templateVar = info.ObjectOf(root)
+							okLabels = true
+						}
+					}
+				}
+			}
+			return true
+		})
+	}
+	// the replica count: the variable compared with 1 in the statement that raises the number of generated pods
+	ast.Inspect(fd.Decl.Body, func(n ast.Node) bool {
+		ifs, ok := n.(*ast.IfStmt)
+		if !ok || numVar == nil {
+			return true
+		}
+		assignsNum := false
+		for _, st := range ifs.Body.List {
+			if as, isAs := st.(*ast.AssignStmt); isAs && len(as.Lhs) == 1 && obj(as.Lhs[0]) == numVar {
+				assignsNum = true
+			}
+		}
+		if be, isBE := ast.Unparen(ifs.Cond).(*ast.BinaryExpr); isBE && assignsNum {
+			replicasVar = obj(be.X)
+		}
+		return true
+	})
+	kindParam := types.Object(sig.Params().At(1))
+	if podVar == nil || nsVar == nil || nameVar == nil || apiVar == nil || templateVar == nil || numVar == nil || replicasVar == nil {
+		r.Add(rule, fd.Key()+": the generated pods are built from (name, namespace, API version, template, replica count) variables", p.Pos(fd.Decl.Pos()), core.Undecided, fmt.Sprintf("the construction of the generated pods was restructured: the roles of the locals could not be recovered (pod %v ns %v name %v api %v template %v count %v replicas %v), re-anchor the rule", podVar != nil, nsVar != nil, nameVar != nil, apiVar != nil, templateVar != nil, numVar != nil, replicasVar != nil))
+		return
+	}
+	r.Check(kindVar == kindParam, rule+"-template", fd.Key()+": generated pods carry the workload's namespace and an owner made of the workload's name, kind and API version", p.Pos(fd.Decl.Pos()), "", "the owner of the generated pods is not built from the workload's name, the kind parameter and the API version")
+	r.Check(okLabels && okPorts, rule+"-template", fd.Key()+": generated pods copy labels and container ports from the pod template", p.Pos(fd.Decl.Pos()), "", "labels or ports of the generated pods no longer come from the pod template")
+	// ---- sibling cases
 	var sw *ast.SwitchStmt
 	ast.Inspect(fd.Decl.Body, func(n ast.Node) bool {
-		if s, ok := n.(*ast.SwitchStmt); ok && sw == nil && s.Tag != nil {
+		if s, ok := n.(*ast.SwitchStmt); ok && sw == nil && s.Tag != nil && obj(s.Tag) == kindParam {
 			sw = s
 		}
 		return true
 	})
 	if sw == nil {
-		r.Bad(rule, fd.Key()+": dispatches on the workload kind", p.Pos(fd.Decl.Pos()), "no switch on the kind")
+		r.Bad(rule, fd.Key()+": dispatches on the workload kind", p.Pos(fd.Decl.Pos()), "no switch on the kind parameter")
 		return
 	}
-	wantSuffix := map[string][]string{
-		"workloadName": {".Name"}, "workloadNamespace": {".Namespace"}, "APIVersion": {".APIVersion"},
-		"podTemplate": {".Spec.Template", ".Spec.JobTemplate.Spec.Template"},
+	type want struct {
+		role string
+		v    types.Object
+		sufs []string
 	}
+	wants := []want{{"name", nameVar, []string{".Name"}}, {"namespace", nsVar, []string{".Namespace"}}, {"API version", apiVar, []string{".APIVersion"}},
+		{"template", templateVar, []string{".Spec.Template", ".Spec.JobTemplate.Spec.Template"}}}
 	for _, cc := range sw.Body.List {
 		cl := cc.(*ast.CaseClause)
 		if cl.List == nil {
 			continue
 		}
 		kind := kindConst(info, cl.List[0])
-		got := map[string]string{}
+		got := map[types.Object]string{}
 		var objName string
-		for _, st := range cl.Body {
-			as, ok := st.(*ast.AssignStmt)
-			if !ok || len(as.Lhs) != 1 {
-				// podTemplate may be assigned under a nil guard
-				if ifs, isIf := st.(*ast.IfStmt); isIf {
-					for _, s2 := range ifs.Body.List {
-						if a2, isA := s2.(*ast.AssignStmt); isA && len(a2.Lhs) == 1 {
-							got[core.ExprStr(a2.Lhs[0])] = core.ExprStr(a2.Rhs[0])
-						}
+		var collect func(list []ast.Stmt)
+		collect = func(list []ast.Stmt) {
+			for _, st := range list {
+				switch x := st.(type) {
+				case *ast.AssignStmt:
+					if len(x.Lhs) != 1 || len(x.Rhs) != 1 {
+						continue
 					}
+					if x.Tok == token.DEFINE {
+						if objName == "" {
+							objName = core.ExprStr(x.Lhs[0])
+						}
+						continue
+					}
+					if o := obj(x.Lhs[0]); o != nil {
+						got[o] = core.ExprStr(x.Rhs[0])
+					}
+				case *ast.IfStmt:
+					collect(x.Body.List) // the template may be assigned under a nil guard
 				}
-				continue
 			}
-			l := core.ExprStr(as.Lhs[0])
-			if as.Tok == token.DEFINE {
-				objName = l
-				continue
-			}
-			got[l] = core.ExprStr(as.Rhs[0])
 		}
+		collect(cl.Body)
 		var bad []string
-		for v, sufs := range wantSuffix {
-			val := strings.TrimPrefix(got[v], "*")
+		for _, wv := range wants {
+			val := strings.TrimPrefix(got[wv.v], "*")
 			okv := false
-			for _, s := range sufs {
-				if val == objName+s {
+			for _, sfx := range wv.sufs {
+				if val == objName+sfx {
 					okv = true
 				}
 			}
 			if !okv {
-				bad = append(bad, fmt.Sprintf("%s = %s", v, got[v]))
+				bad = append(bad, fmt.Sprintf("%s = %s", wv.role, got[wv.v]))
 			}
 		}
-		// replicas: getReplicas(obj.Spec.Replicas|Parallelism) or the constant 1
-		rep := got["replicas"]
-		if !(rep == "1" || rep == "getReplicas("+objName+".Spec.Replicas)" || rep == "getReplicas("+objName+".Spec.Parallelism)") {
-			bad = append(bad, "replicas = "+rep)
+		rep := got[replicasVar]
+		okRep := rep == "1"
+		if c, isC := func() (*ast.CallExpr, bool) {
+			for _, st := range cl.Body {
+				if as, isAs := st.(*ast.AssignStmt); isAs && len(as.Lhs) == 1 && obj(as.Lhs[0]) == replicasVar {
+					c, ok := ast.Unparen(as.Rhs[0]).(*ast.CallExpr)
+					return c, ok
+				}
+			}
+			return nil, false
+		}(); isC && len(c.Args) == 1 {
+			if fn := core.Callee(info, c); fn != nil && fn.Name() == "getReplicas" {
+				a := core.ExprStr(c.Args[0])
+				okRep = a == objName+".Spec.Replicas" || a == objName+".Spec.Parallelism"
+			}
+		}
+		if !okRep {
+			bad = append(bad, "replica count = "+rep)
 		}
 		sort.Strings(bad)
 		r.Check(len(bad) == 0, rule+"-case", fmt.Sprintf("%s: case %s takes name, namespace, template, API version and replica count from the same-named fields of its object", fd.Key(), kind), p.Pos(cl.Pos()), "",
 			"the case assigns "+strings.Join(bad, "; ")+": the same pod template expressed as this kind would be analysed differently from the other kinds")
 	}
 	r.Floor(rule+"-case", 7)
-	// replica non-interference: `replicas` is only compared with 1
-	var repVar types.Object
-	ast.Inspect(fd.Decl.Body, func(n ast.Node) bool {
-		if vs, ok := n.(*ast.ValueSpec); ok {
-			for _, nm := range vs.Names {
-				if nm.Name == "replicas" {
-					repVar = info.ObjectOf(nm)
-				}
-			}
-		}
-		return true
-	})
-	if repVar == nil {
-		r.Add(rule+"-replicas", fd.Key()+": replica count variable", p.Pos(fd.Decl.Pos()), core.Undecided, "variable replicas not found")
-	} else {
+	// ---- replica non-interference: the replica count is read only in `<count> > 1`
+	{
 		bad := ""
 		lhs := map[*ast.Ident]bool{}
 		ast.Inspect(fd.Decl.Body, func(n ast.Node) bool {
@@ -347,7 +474,7 @@ func WorkloadExpansion(p *core.Program, r *core.Report, rule string) {
 				parents = parents[:len(parents)-1]
 				return true
 			}
-			if id, ok := n.(*ast.Ident); ok && info.ObjectOf(id) == repVar && !lhs[id] {
+			if id, ok := n.(*ast.Ident); ok && info.ObjectOf(id) == replicasVar && !lhs[id] {
 				par := parents[len(parents)-1]
 				if _, isVS := par.(*ast.ValueSpec); !isVS {
 					be, isBE := par.(*ast.BinaryExpr)
@@ -359,39 +486,7 @@ func WorkloadExpansion(p *core.Program, r *core.Report, rule string) {
 			parents = append(parents, n)
 			return true
 		})
-		r.Check(bad == "", rule+"-replicas", fd.Key()+": the replica count only decides between one and two generated pods", p.Pos(fd.Decl.Pos()), "replicas is read only in `replicas > 1`", "the replica count flows into "+bad+": connectivity must not depend on the number of replicas")
-	}
-	// generated pods take labels and ports from the template only
-	{
-		okLabels, okPorts := false, false
-		okNs, okOwner := false, false
-		ast.Inspect(fd.Decl.Body, func(n ast.Node) bool {
-			if rs, ok := n.(*ast.RangeStmt); ok && core.ExprStr(rs.X) == "podTemplate.Labels" {
-				okLabels = true
-			}
-			if as, ok := n.(*ast.AssignStmt); ok && len(as.Lhs) == 1 && core.ExprStr(as.Lhs[0]) == "pod.Ports" {
-				if strings.Contains(core.ExprStr(as.Rhs[0]), "podTemplate.Spec.Containers[") {
-					okPorts = true
-				}
-			}
-			if as, ok := n.(*ast.AssignStmt); ok && len(as.Lhs) == 1 && core.ExprStr(as.Lhs[0]) == "pod.Namespace" && core.ExprStr(as.Rhs[0]) == "workloadNamespace" {
-				okNs = true
-			}
-			if as, ok := n.(*ast.AssignStmt); ok && len(as.Lhs) == 1 && core.ExprStr(as.Lhs[0]) == "pod.Owner" {
-				if cl, isCl := ast.Unparen(as.Rhs[0]).(*ast.CompositeLit); isCl {
-					m := map[string]string{}
-					for _, el := range cl.Elts {
-						if kv, isKV := el.(*ast.KeyValueExpr); isKV {
-							m[core.ExprStr(kv.Key)] = core.ExprStr(kv.Value)
-						}
-					}
-					okOwner = m["Name"] == "workloadName" && m["Kind"] == "kind" && m["APIVersion"] == "APIVersion"
-				}
-			}
-			return true
-		})
-		r.Check(okNs && okOwner, rule+"-template", fd.Key()+": generated pods carry the workload's namespace and an owner made of the workload's name, kind and API version", p.Pos(fd.Decl.Pos()), "", "the generated pods' namespace or owner no longer come from the workload object: replicas would not be grouped under one workload peer")
-		r.Check(okLabels && okPorts, rule+"-template", fd.Key()+": generated pods copy labels and container ports from the pod template", p.Pos(fd.Decl.Pos()), "", "labels or ports of the generated pods no longer come from the pod template")
+		r.Check(bad == "", rule+"-replicas", fd.Key()+": the replica count only decides between one and two generated pods", p.Pos(fd.Decl.Pos()), "read only in `count > 1`", "the replica count flows into "+bad+": connectivity must not depend on the number of replicas")
 	}
 	// owner of a bare pod: only from an ownerReference whose controller flag is TRUE
 	if pf := p.Func(core.PkgK8s, "", "PodFromCoreObject"); pf != nil {
